@@ -249,4 +249,67 @@ theorem fStridesAux_nonneg (shape : List Nat) (acc : Nat) : ∀ s ∈ fStridesAu
     · exact Int.natCast_nonneg _
     · exact ih _ s hs
 
+/-! ### the temporary dumps over a history of calls -/
+
+theorem dispatchStep_seen (fs : TempFiles) (d : Dispatch)
+    (hfs : ∀ v, fs.lookup (d.ctx, d.obj) = some v → v = d.vals) : (dispatchStep fs d).2 = d.vals := by
+  unfold dispatchStep
+  cases hl : fs.lookup (d.ctx, d.obj) with
+  | none => rfl
+  | some v => exact hfs v hl
+
+theorem dispatchStep_lookup (fs : TempFiles) (d : Dispatch) (k : Nat × Nat) (v : Nat)
+    (h : (dispatchStep fs d).1.lookup k = some v) :
+    fs.lookup k = some v ∨ (k = (d.ctx, d.obj) ∧ v = d.vals) := by
+  unfold dispatchStep at h
+  cases hl : fs.lookup (d.ctx, d.obj) with
+  | some w =>
+    simp only [hl] at h
+    exact Or.inl h
+  | none =>
+    simp only [hl, List.lookup_cons] at h
+    by_cases hk : k = (d.ctx, d.obj)
+    · subst hk
+      simp at h
+      exact Or.inr ⟨rfl, h.symm⟩
+    · have : (k == (d.ctx, d.obj)) = false := by simpa using hk
+      simp only [this] at h
+      exact Or.inl h
+
+theorem runHistory_faithful (h : List Dispatch) : ∀ (fs : TempFiles),
+    (∀ d ∈ h, ∀ v, fs.lookup (d.ctx, d.obj) = some v → v = d.vals) →
+    (∀ d ∈ h, ∀ e ∈ h, d.ctx = e.ctx → d.obj = e.obj → d.vals = e.vals) →
+    runHistory fs h = h.map (·.vals) := by
+  induction h with
+  | nil => intros; rfl
+  | cons d rest ih =>
+    intro fs hfs hconst
+    have hd0 := hfs d (List.mem_cons_self ..)
+    simp only [runHistory, List.map_cons]
+    rw [dispatchStep_seen fs d hd0]
+    congr 1
+    apply ih
+    · intro e he v hv
+      rcases dispatchStep_lookup fs d (e.ctx, e.obj) v hv with h1 | ⟨hk, hv2⟩
+      · exact hfs e (List.mem_cons_of_mem _ he) v h1
+      · have hc : e.ctx = d.ctx := congrArg Prod.fst hk
+        have ho : e.obj = d.obj := congrArg Prod.snd hk
+        rw [hv2]
+        exact hconst d (List.mem_cons_self ..) e (List.mem_cons_of_mem _ he) hc.symm ho.symm
+    · intro e he f hf
+      exact hconst e (List.mem_cons_of_mem _ he) f (List.mem_cons_of_mem _ hf)
+
+theorem nodup_key_eq (h : List Dispatch) (hn : (h.map (fun d => (d.ctx, d.obj))).Nodup) :
+    ∀ d ∈ h, ∀ e ∈ h, d.ctx = e.ctx → d.obj = e.obj → d = e := by
+  induction h with
+  | nil => intro d hd; cases hd
+  | cons a rest ih =>
+    rw [List.map_cons, List.nodup_cons] at hn
+    intro d hd e he hc ho
+    rcases List.mem_cons.1 hd with rfl | hd' <;> rcases List.mem_cons.1 he with rfl | he'
+    · rfl
+    · exact absurd (List.mem_map.2 ⟨e, he', by simp [hc, ho]⟩) hn.1
+    · exact absurd (List.mem_map.2 ⟨d, hd', by simp [hc, ho]⟩) hn.1
+    · exact ih hn.2 d hd' e he' hc ho
+
 end JoblibModel.ArrayFormat
